@@ -242,24 +242,24 @@ BBit(m, p)     == (p % BW) \in m[p \div BW]
 \* the in-domain jobs, named <<thread, index>>
 Jobs == UNION {{<<t, k>> : k \in {k2 \in 1 .. Len(Prog(t)) : InDomain(Prog(t)[k2])}} : t \in Threads}
 JobOf(tk)     == Prog(tk[1])[tk[2]]
-FieldJobs     == {tk \in Jobs : JobOf(tk).kind \in FieldKinds}
-BitWJobs      == {tk \in Jobs : JobOf(tk).kind \in BitWKinds \cup {"efset"}}
 BitJobs       == {tk \in Jobs : JobOf(tk).kind \in BitKinds \cup {"efset"}}
-ThreadsOf(S)  == {tk[1] : tk \in S}
-IsLast(tk, S) == \A o \in S : o[1] = tk[1] => o[2] <= tk[2]      \* last of its thread in S
-FieldWriters(i) == {tk \in FieldJobs : JobOf(tk).idx = i}
-BitWriters(p)   == {tk \in BitWJobs : BitPos(JobOf(tk)) = p}
+
+\* per thread: its in-domain field writes / bit writes (indices into its program)
+FieldJobsOf(t) == {k \in 1 .. Len(Prog(t)) : Prog(t)[k].kind \in FieldKinds /\ InDomain(Prog(t)[k])}
+BitWJobsOf(t)  == {k \in 1 .. Len(Prog(t)) : Prog(t)[k].kind \in BitWKinds \cup {"efset"} /\ InDomain(Prog(t)[k])}
+FieldsOf(t)    == {Prog(t)[k].idx : k \in FieldJobsOf(t)}
+\* <<thread, bit>> for every bit the thread writes
+BitsWritten    == UNION {{<<t, BitPos(Prog(t)[k])>> : k \in BitWJobsOf(t)} : t \in Threads}
 
 \* the hypothesis of the property: distinct threads write distinct elements
-DistinctFields ==
-    LET FJ == FieldJobs IN
-    \A tk \in FJ : \A o \in FJ : JobOf(o).idx = JobOf(tk).idx => o[1] = tk[1]
+DistinctFields == \A t1, t2 \in Threads : t1 < t2 => FieldsOf(t1) \cap FieldsOf(t2) = {}
 \* bits written by one thread only (the others may be shared by swappers)
-Private(p)     == Cardinality(ThreadsOf(BitWriters(p))) <= 1
+PrivateIn(bw, p) == Cardinality({t \in Threads : <<t, p>> \in bw}) <= 1
+Private(p)       == PrivateIn(BitsWritten, p)
 
 FieldPositions(i) == {i * Width + c : c \in Low(Width)}
-WrittenFPos == UNION {FieldPositions(JobOf(tk).idx) : tk \in FieldJobs}
-WrittenBPos == {BitPos(JobOf(tk)) : tk \in BitWJobs}
+WrittenFPos == UNION {FieldPositions(i) : i \in UNION {FieldsOf(t) : t \in Threads}}
+WrittenBPos == {tp[2] : tp \in BitsWritten}
 
 \* storage that belongs to no written element always equals the initial memory
 FrameAt(m) ==
@@ -270,16 +270,19 @@ Frame == FrameAt(mem)
 
 \* once every thread is done, every written element holds its writer's value
 \* (the last one, if its thread wrote it more than once) and everything else
-\* is unchanged
+\* is unchanged.  (Under DistinctFields the writers of a field are jobs of one
+\* thread, so "last" is program order.)
 NoInterferenceAt(m) ==
-    LET FJ == FieldJobs  BJ == BitWJobs IN
-    /\ \A tk \in FJ :
-           IsLast(tk, {o \in FJ : JobOf(o).idx = JobOf(tk).idx})
-               => FieldVal(m.f, JobOf(tk).idx) = ValSet(JobOf(tk))
-    /\ \A tk \in BJ :
-           LET p == BitPos(JobOf(tk))
-               ws == {o \in BJ : BitPos(JobOf(o)) = p}
-           IN  (Cardinality(ThreadsOf(ws)) <= 1 /\ IsLast(tk, ws)) => (BBit(m.b, p) <=> BitVal(JobOf(tk)))
+    LET bw == BitsWritten IN
+    /\ \A t \in Threads :
+         LET fj == FieldJobsOf(t)  bj == BitWJobsOf(t) IN
+         /\ \A k \in fj :
+                (\A k2 \in fj : k2 > k => Prog(t)[k2].idx # Prog(t)[k].idx)
+                    => FieldVal(m.f, Prog(t)[k].idx) = ValSet(Prog(t)[k])
+         /\ \A k \in bj :
+                LET p == BitPos(Prog(t)[k]) IN
+                (PrivateIn(bw, p) /\ \A k2 \in bj : k2 > k => BitPos(Prog(t)[k2]) # p)
+                    => (BBit(m.b, p) <=> BitVal(Prog(t)[k]))
     /\ FrameAt(m)
 NoInterference == (Quiescent /\ DistinctFields) => NoInterferenceAt(mem)
 
@@ -330,7 +333,7 @@ RunProg(m, p, k) == IF k > Len(p) THEN m ELSE RunProg(RunJob(m, p[k]), p, k + 1)
 RECURSIVE RunAll(_, _)
 RunAll(m, t) == IF t > Len(I.prog) THEN m ELSE RunAll(RunProg(m, I.prog[t], 1), t + 1)
 
-AllPrivate == \A tk \in BitWJobs : Private(BitPos(JobOf(tk)))
+AllPrivate == LET bw == BitsWritten IN \A tp \in bw : PrivateIn(bw, tp[2])
 EqualsSequential == (Quiescent /\ DistinctFields /\ AllPrivate) => mem = RunAll(InitMem, 1)
 
 Termination == <>Quiescent
